@@ -5,13 +5,13 @@
    "Fitted values follow the permutation": C08_fitted_follow_permutation proves that EVERY minimiser of the reordered
    problem is the reordered minimiser; uniqueness is a theorem (K + jI spd, concave likelihood term => strictly convex
    function-space objective; thm/C08UniqThm.v, instantiated at R with the generated nn_term in thm/C08UniqR.v).
-   Partial (kept visible): existence of the minimiser is proved for the generated latent-coordinate loss
-   (C17_loss_has_unique_minimiser, thm/AExistThm.v) but not bridged to this function-space matrix form.  The nearest-neighbour search is
+   Existence too is a theorem at R (C08_nn_fitted_values_well_defined: exactly one minimiser, g minimises the reordered
+   problem iff g = P f).  The nearest-neighbour search is
    a library contract (distance to the nearest other row; validated against brute force by C03/C14). *)
 From Coq Require Import Reals List ZArith Lra Permutation.
 From Coquelicot Require Import Coquelicot.
 From MellonV Require Import ALists AKernels AKExpr ACovFunc AInference AKernelsThm ADistThm AInferenceThm C08Thm C08OrthThm.
-From MellonV Require MxInst C08MxThm C08UniqThm C08UniqR.
+From MellonV Require MxInst C08MxThm C08UniqThm C08UniqR C08ExistR.
 Import ListNotations.
 
 Section RealPart.
@@ -211,6 +211,18 @@ Theorem C08_nn_fitted_follow_permutation (lgam : R -> R) (d : R) n (K : 'M[R]_n)
   g = (perm_mx s *m f)%R.
 Proof. exact: C08UniqR.nn_fitted_follow_permutation. Qed.
 
+(* the complete statement for the full model at R: K + jI spd  =>  the function-space objective with the generated nn_term has
+   EXACTLY ONE minimiser f, and g minimises the reordered problem iff g = P f (existence: Cholesky factor of lib/MxChol.v turns the
+   objective into the generated latent-coordinate loss, whose minimiser exists by thm/AExistThm.v; thm/C08ExistR.v) *)
+Theorem C08_nn_fitted_values_well_defined (lgam : R -> R) (d : R) n (K : 'M[R]_n) (j mu : R) (r : 'cV[R]_n) :
+  (MxInst.spd (K + j%:M))%R ->
+  exists f, [/\ C08UniqThm.is_min (C08MxThm.objective (C08UniqR.ell_nn lgam d) K j mu r) f,
+               (forall g, C08UniqThm.is_min (C08MxThm.objective (C08UniqR.ell_nn lgam d) K j mu r) g -> g = f)
+             & forall (s : 'S_n) g,
+                 C08UniqThm.is_min (C08MxThm.objective (C08UniqR.ell_nn lgam d) (perm_mx s *m K *m (perm_mx s)^T)%R j mu (perm_mx s *m r)%R) g
+                 <-> g = (perm_mx s *m f)%R].
+Proof. exact: C08ExistR.nn_fitted_values_well_defined. Qed.
+
 Print Assumptions C08_sqdist_isometry_mx.
 Print Assumptions C08_gram_permutation.
 Print Assumptions C08_objective_permutation.
@@ -219,3 +231,4 @@ Print Assumptions C08_objective_min_unique.
 Print Assumptions C08_fitted_follow_permutation.
 Print Assumptions C08_permuted_minimiser_is_min.
 Print Assumptions C08_nn_fitted_follow_permutation.
+Print Assumptions C08_nn_fitted_values_well_defined.
